@@ -80,3 +80,13 @@ Lemma C20_dynamic_refuted_hidden :
   forallb (fun r => match r with RDone _ => true | _ => false end)
     (List.last (fst (dsl_run_history tb_O5c FUEL init_world [HEdit 0 (Some 1%Z); HSession [SRequire 3; SRequire 1]])) []) = true.
 Proof. vm_compute. repeat split; reflexivity. Qed.
+
+(* ---- C19 (O13): a diagnosed cycle A -> B -> A is repaired (A stops requiring B); requiring B first then aborts with a spurious
+   "Cyclic task dependency": the aborted A still holds its reserved edge A -> B.  From-scratch builds succeed in either order. *)
+Definition tb_O13 : table := [(1, on0 2 (CReq 2 EQ CDone) CDone); (2, CReq 1 EQ CDone)].
+Lemma C19_spurious_cycle_after_abort_refuted :
+  fst (dsl_run_history tb_O13 FUEL init_world [HEdit 0 (Some 1%Z); HSession [SRequire 1]; HEdit 0 (Some 2%Z); HSession [SRequire 2]])
+    = [[]; [RAbort ACycle]; []; [RAbort ACycle]] /\
+  all_done (fst (dsl_run_history tb_O13 FUEL init_world [HEdit 0 (Some 2%Z); HSession [SRequire 2; SRequire 1]])) = true /\
+  all_done (fst (dsl_run_history tb_O13 FUEL init_world [HEdit 0 (Some 2%Z); HSession [SRequire 1; SRequire 2]])) = true.
+Proof. vm_compute. repeat split; reflexivity. Qed.
